@@ -38,6 +38,9 @@ type c13Job struct {
 	Input  string            `json:"input"`
 	Ext    map[string]string `json:"externals,omitempty"`
 	Funcs  bool              `json:"with_test_functions,omitempty"`
+	// Before lists jobs run first in the same process state (same configuration, nothing reset in
+	// between): what they leave in pools and caches is part of the case.
+	Before []c13Job `json:"before,omitempty"`
 }
 
 func c13Run(cfg c13Cfg, j c13Job) []string {
@@ -75,6 +78,14 @@ func c13Run(cfg c13Cfg, j c13Job) []string {
 		return 0
 	}
 	defer resetProcessState()
+	for _, b := range j.Before {
+		c13RunOne(cfg, b)
+	}
+	return c13RunOne(cfg, j)
+}
+
+// c13RunOne runs one job in the current process state.
+func c13RunOne(cfg c13Cfg, j c13Job) []string {
 	var exts []omniparser.Extension
 	if j.Funcs {
 		exts = append(exts, omniparser.Extension{CreateSchemaHandler: omniv21.CreateSchemaHandler, CustomFuncs: c02ImplFuncs})
@@ -168,6 +179,29 @@ func c13Jobs(quick bool) []c13Job {
   "d1":{"xpath_dynamic":{"xpath":"k"}},"d2":{"xpath_dynamic":{"custom_func":{"name":"concat","args":[{"const":"f"},{"xpath":"n"}]}}},"s1":{"xpath":"f1"},"s2":{"xpath":"f2"},"s3":{"xpath":"k"}}}}}`,
 			Input: `<r><o><k>f1</k><n>2</n><f1>a</f1><f2>b</f2></o><o><k>f2</k><n>1</n><f1>c</f1><f2>d</f2></o><o><k>zz</k><n>9</n><f1>e</f1></o><o><k>f1</k><n>1</n><f1>g</f1></o></r>`},
 	)
+	jobs = append(jobs,
+		c13Job{Name: "js-scripts-differing-only-in-whitespace", Schema: `{` + h("json") + `,"transform_declarations":{"FINAL_OUTPUT":{"xpath":"/*","object":{
+  "a":{"custom_func":{"name":"javascript","args":[{"const":"v + ' | ' + v"},{"const":"v"},{"xpath":"v"}]}},
+  "b":{"custom_func":{"name":"javascript","args":[{"const":"v + '   |   ' + v"},{"const":"v"},{"xpath":"v"}]}},
+  "c":{"custom_func":{"name":"javascript","args":[{"const":"v // tail\n + 1"},{"const":"v"},{"xpath":"n"}]}},
+  "d":{"custom_func":{"name":"javascript","args":[{"const":"v // tail + 1"},{"const":"v"},{"xpath":"n"}]}}}}}}`,
+			Input: `[{"v":"x","n":1},{"v":"y","n":2}]`})
+	// cross-format histories in one process state: what an earlier job of another format leaves in
+	// the node pool must not matter for the next job
+	byName := map[string]c13Job{}
+	for _, j := range jobs {
+		byName[j.Name] = j
+	}
+	for _, pair := range [][2]string{{"xml-namespaces", "c10/csv"}, {"xml-namespaces", "c10/csv2"}, {"c10/json", "c10/edi"}, {"json-xpath-dynamic", "c10/fixedlength2"},
+		{"xml-uri-bound-twice", "c10/fixed-length"}, {"c10/xml", "c10/json"}, {"c10/json", "c10/xml"}, {"xml-context-on-ancestor", "csv-datetime"}} {
+		a, b := byName[pair[0]], byName[pair[1]]
+		if a.Name == "" || b.Name == "" {
+			continue
+		}
+		b.Name = pair[1] + "-after-" + pair[0]
+		b.Before = []c13Job{a}
+		jobs = append(jobs, b)
+	}
 	// declaration sets of C02's two-position / template families on a multi-record XML input
 	n := 0
 	input := "<all>" + strings.Join(c02Records[:6], "") + "</all>"
